@@ -233,11 +233,12 @@ CHECKS = {
         'theorem_modules': ['Pangaea.Theorems.C06'],
         'generated': ['C06'],
         'theorems': ['Pangaea.C06.step_frozen', 'Pangaea.C06.history_frozen', 'Pangaea.C06.plus_result', 'Pangaea.C06.write_sites_are_the_reviewed_ones'],
-        'harness': ['C06'],
+        'harness': ['C06', 'C06core'],
         'shards': 14,
-        'spec_is_function': False,
+        'spec_is_function': {'C06': False, 'C06core': True},
         'rule': 'runtime monitor on the implementation: the registry sweep of C01 run as ONE history in one scope whose pool members and the last 64 results stay referenced; before and after every call a deep fingerprint by Go pointer '
                 'identity (array element pointers, object pair pointers and prototype, map key/value pointers, str/int/float payloads, range bounds) of everything reachable from the scope; any existing value whose fingerprint changes is a violation. '
+                'Plus generated Core programs that keep values alive across later operations (pairs handed to one-parameter reduce callbacks, unpacked arrays and objects, captured arguments) compared with the Lean reference evaluator, whose values are immutable by construction. '
                 'non-trivial = every call; distinct by source',
         'trusted_base': [KERNEL, AX, 'translator /verif/extract (go/ast): inventory of in-place write sites compared with the reviewed list in Pangaea/Object/WriteSites.lean', 'the fingerprint function of the harness'],
         'assumptions': ['the Lean model covers array values over Go slices (append semantics, any growth policy); objects and maps are covered by the write-site inventory and the runtime monitor', 'iterators (next / recur) and variables are the mutable things, by definition of the property'],
